@@ -275,6 +275,17 @@ def apply_fault(cx: Ctx, fault: Sequence, name: str = "X", hid=None) -> List[str
             # how == "accepted": TCP connection only
         w.settle(limit=4 * n + 50)
         return []
+    if kind == "named-newcomer":
+        # a listener to everything (the manager's own log records included) has reset its connection; in the same round a newcomer
+        # introduces itself with an id and a name
+        _, role, how, v2name = fault
+        tc = cx.tc
+        D = position(cx, name, role, hid)
+        X = cx.new(name + "N")
+        w.settle()  # (the newcomer's TCP connection is accepted: its handshake and the listener's reset are seen in ONE round)
+        D.fin() if how == "fin" else D.rst()
+        X.send(P.mkframe(P.MT_CONNECT_V2, P.p_connect_v2(0, 0, 0, 77, 7, bytes.fromhex(v2name)), timecode=tc, src_mod_id=77))
+        return [name, name + "N"]
     if kind == "churn":
         _, n, how = fault
         tc = cx.tc
@@ -652,6 +663,17 @@ def plan(tier: str):
             for nm in (b"[/x]", b"[bold]x[/bold]", b"[/]", b"[red", b"x[/red]", b"\\[x]", b"[link=a]b", b"{x}%s%d"):
                 for via in ("connect", "setname"):
                     cases.append((tc, lvl, True, 1, False, [["markup", nm.hex(), via]], "single", 0))
+    # the manager run with `-l DEBUG` publishes a record for almost every step it takes: a dead listener is then found in the middle of
+    # whatever the manager was doing (every service order of the round)
+    for lvl in (logging.DEBUG, logging.INFO):
+        for role in ("suball", "logger"):
+            for how in ("rst", "fin"):
+                for nm in (b"newcomer", b""):
+                    for grace in (0, 1):
+                        cases.append((False, lvl, True, grace, False, [["named-newcomer", role, how, nm.hex()]], "same", -1))
+        for f in single_faults(False, tier):
+            if lvl == logging.DEBUG and (f[0] in ("wdie", "slow") or (f[0] == "adie" and f[3] in (1, 2))):
+                cases.append((False, lvl, True, 1, False, [f], "single", 0))
     if tier == "quick":
         # the manager started with the timecode header layout (its own messages, notices included, are built around that header):
         # the families in which the manager itself has to write or report
